@@ -39,7 +39,7 @@ ANCHORS = [(F, "GBNFCompiler.compile_chain"), (F, "GBNFCompiler.compile_constrai
 # pools
 # --------------------------------------------------------------------------------------------------
 # atoms as written inside CONST[...] / ENUM[...] (the reader's _parse_atom decides their type)
-ATOMS = ['ACTIVE', 'DONE', 'A', 'a_b', 'a-b', 'a.b', 'a/b', 'v1', 'TRUE', 'True', 'None', 'x9', '_x', 'REQ', 'inf', 'nan', 'truex', 'true_x', 'nullable', 'vsx',
+ATOMS = ['3.14159265', '1234567.0', '100000.5', '0.30000000000000004', '123456789.125', '2.5e-07', 'INF', 'Infinity', 'NaN', '-inf', 'ACTIVE', 'DONE', 'A', 'a_b', 'a-b', 'a.b', 'a/b', 'v1', 'TRUE', 'True', 'None', 'x9', '_x', 'REQ', 'inf', 'nan', 'truex', 'true_x', 'nullable', 'vsx',
          '42', '-7', '0', '-0', '007', '3.14', '-0.5', '1.50', '1e16', '1e5', '1e-7', '1e400', '-1e400', '12345678901234567890', '0.1', '100.0',
          'true', 'false', 'null', '"true"', '"null"', '"false"', '"42"', '"007"', '"1.50"', '"1e5"', '"5."', '".5"', '"+1"', '"-"', '"x-"', '"--x"', '""',
          '"x y"', '"x y z"', '"a  b"', '" lead"', '"trail "', '"a\\"b"', '"a\\\\b"', '"a\nb"', '"a\tb"', '"2024-01-15"', '"a::b"', '"a:b"', '"#tag"', '"§x"', '"a→b"',
@@ -109,7 +109,9 @@ def kf_literal_not_bare_word(kind, dinfo, t):
     words …) — for ENUM: neither a plain word nor a canonical number — is misread or refused; likewise a
     CONST float that Python prints as inf / nan."""
     if kind == "CONST":
-        return (dinfo.get("pytype") == "str" and not bare_word(t)) or dinfo.get("pytype") == "float-nonfinite"
+        # a numeric LITERAL that overflows a double (CONST[1e400]) prints as inf; the words inf / nan / Infinity are ordinary words
+        numeric_src = bool(re.fullmatch(r"-?\d+(?:\.\d*)?(?:[eE][+-]?\d+)?", dinfo.get("atom_src") or ""))
+        return (dinfo.get("pytype") == "str" and not bare_word(t)) or (dinfo.get("pytype") == "float-nonfinite" and numeric_src)
     if kind == "ENUM":
         return not (bare_word(t) or canonical_number(t))
     return False
@@ -235,6 +237,9 @@ def eval_case(case):
         return res
     chain = fd.pattern.constraints
     kind, dinfo = deciding_info(chain)
+    # how the CONST atom was WRITTEN in the chain text (the known-finding classes are about the input, not about what the chain parser made of it)
+    _m = re.search(r"CONST\[(.*?)\](?:∧|$)", ctext, re.S)
+    dinfo["atom_src"] = _m.group(1) if _m else None
     res["kind"] = kind
     if kind in ("NONE", "TYPE-OTHER"):
         res["skip"] = "not-a-C13-chain"
